@@ -111,6 +111,16 @@ def rule_template(chk):
         c = [x for x in M.calls(e) if M.call_name(x) == 'helper.' + nm][0]
         chk.decide([U(a) for a in c.args] == ['dest', mvar], 'stage-wrapper', 'args:' + nm, node=c, file=TPL, func='stage wrapper',
                    detail_bad='helper.%s called with %s (expected (dest, %s))' % (nm, [U(a) for a in c.args], mvar), detail_ok='(dest, %s)' % mvar)
+    # template-level conditions: the Python hook is emitted for every destination; only the compiled particle loop depends on the stepper having the method
+    pyg = [compact(x) for x in pyl.guards]
+    lg = [compact(x) for x in ll.guards]
+    chk.decide(not pyg, 'stage-wrapper', 'py_stage-hook-unconditional', node=pyn.ast, file=TPL, func='stage wrapper',
+               detail_bad='the py_stage hook is emitted only under %s: a stepper that implements a stage purely as py_<stage> (no compiled method) never has it called' % pyg,
+               detail_ok='emitted for every destination (get_py_stage_code itself returns nothing when the stepper lacks the hook)')
+    chk.decide(lg == ['helper.has_stepper_loop(dest,%s)' % mvar] and [compact(x) for x in cl.guards] == lg and [compact(x) for x in sl.guards] == lg, 'stage-wrapper',
+               'particle-loop-only-when-method-exists', node=ln.ast, file=TPL, func='stage wrapper',
+               detail_bad='array set-up / particle loop / stepper call are emitted under %s / %s / %s; expected exactly has_stepper_loop(dest, %s)' % (
+                   [compact(x) for x in sl.guards], lg, [compact(x) for x in cl.guards], mvar), detail_ok='under has_stepper_loop(dest, %s)' % mvar)
     chk.decide(g.dominates(pyn.id, ln.id), 'stage-wrapper', 'py_stage-before-loop', node=pyn.ast, file=TPL, func='stage wrapper',
                detail_bad='the py_stage hook is not emitted before the particle loop', detail_ok='py_stage code dominates the loop')
     # loop is a For whose body contains the stepper call
